@@ -172,6 +172,29 @@ def check(rep, ctx):
                               f"condition of its record count alone, which holds for the well-formed count {hit}: a batch with {hit} record(s) "
                               f"(what a broker serves after compaction removed every record, for 0) cannot be read",
                       file=file, line=fn.node.lineno)
+        # acceptance, record loop: the format relates a record to the batch header through base offset / base timestamp only.  A raise
+        # decided by comparing a record with maxTimestamp is justified only for CreateTime batches (attributes bit 3 clear), where
+        # maxTimestamp is by definition the largest record timestamp; under LogAppendTime it is the broker's clock.
+        if B["repeat"] is not None:
+            maxw = ("unpack", ">q", wire_of["max_timestamp"], 0)
+            attw = ("unpack", ">h", wire_of["attributes"], 0)
+            seen_acc = set()
+            for facts_, effs_, out_, val_ in B["repeat"][2]:
+                if out_ != "raise" or not facts_:
+                    continue
+                t_, pol_, site_ = facts_[-1][0], facts_[-1][1], facts_[-1][2]
+                if not contains(t_, maxw) or not str(site_).startswith("kio.records.readers:read_batch"):
+                    continue
+                create_time_only = any(contains(f_[0], attw) and contains(f_[0], ("k", 8)) for f_ in list(facts_) + list(p.facts))
+                key_ = (site_, pol_, create_time_only)
+                if key_ in seen_acc:
+                    continue
+                seen_acc.add(key_)
+                rep.check(R_A, create_time_only, construct=fn.ref, stmt=stmt_at(ctx, site_),
+                          message="a batch is rejected because a record's timestamp exceeds the header's maxTimestamp, whatever the timestamp type: "
+                                  "under LogAppendTime (attributes bit 3) maxTimestamp is the broker's append time and records keep their own "
+                                  "timestamps, so a well-formed batch (producer clock ahead of the broker's) cannot be read", file=file,
+                          line=int(str(site_).rsplit(":", 1)[1]) if str(site_).rsplit(":", 1)[1].isdigit() else fn.node.lineno)
     # records ------------------------------------------------------------------------------------------------
     RR = RA.record_reader()
     rfn = RR["fn"]
